@@ -29,8 +29,8 @@ impl Property for C03 {
     }
     fn config(&self, tier: Tier) -> PropConfig {
         match tier {
-            Tier::Quick => PropConfig { cases: 24_000, max_tape: 160, shards: 8 },
-            Tier::Thorough => PropConfig { cases: 600_000, max_tape: 400, shards: 16 },
+            Tier::Quick => PropConfig { cases: 300000, max_tape: 160, shards: 12 },
+            Tier::Thorough => PropConfig { cases: 4800000, max_tape: 400, shards: 16 },
         }
     }
     fn run_case(&self, reg: &Registry, shape: usize, tape: &[u8], st: &mut Stats) -> CaseResult {
